@@ -243,6 +243,15 @@ def run_case(prop, case, spec, scratch, stats, tier_params):
         return out, feats, ""
     nwrites = sum(1 for e in log if e[0] == "write")
     stats["C18_write_events"] += nwrites
+    # M3 write-order sanitizer over the same log: an amplifier, counted in the evidence, never a verdict
+    try:
+        ev, _ = M.m3_check(log)
+        stats["m3_logs_checked"] += 1
+        stats["m3_suspicious_events"] += len(ev)
+        for e in ev[:3]:
+            stats["m3:" + str(e[0])] += 1
+    except Exception:
+        stats["m3_monitor_errors"] += 1
     # replaying the whole log must reproduce the files (validates the log)
     last = None
     for label, files in cuts(log, 0, rng):
